@@ -1622,14 +1622,25 @@ pub fn lookup(seed: u64, focus: Focus, rep: &mut Report) {
             }
         }
         // ---- overlapping lookups: every one of them must hand over a result ----
-        if focus != Focus::C11 && rng.chance(1, 5) {
+        if focus != Focus::C11 && rng.chance(if focus == Focus::C10 { 3 } else { 1 }, 5) {
             let k = 2 + rng.usize(3);
             let first = s.apis.len();
             let t_start = s.w.now();
+            // answers take a while (20-150 ms, well below every timeout), so that the lookups,
+            // started some way apart, really run next to each other and end at different times
+            let slow_block = rng.chance(2, 3);
+            let saved_delays: Vec<Duration> = s.w.nodes.iter().map(|n| n.b.reply_delay).collect();
+            if slow_block {
+                for i in 0..s.w.nodes.len() {
+                    if s.w.nodes[i].b.reply_delay == Duration::ZERO {
+                        s.w.nodes[i].b.reply_delay = Duration::from_millis(20 + rng.below(130));
+                    }
+                }
+            }
             for j in 0..k {
                 let target: Id = rng.array();
                 s.api_find_node(target);
-                let gap = Duration::from_millis(*rng.pick(&[1u64, 20, 300]));
+                let gap = Duration::from_millis(*rng.pick(&[1u64, 20, 100, 300]));
                 s.advance(gap, rep).await;
                 // start another one as soon as an earlier one has ended
                 if j + 1 == k {
@@ -1662,6 +1673,81 @@ pub fn lookup(seed: u64, focus: Focus, rep: &mut Report) {
                     }
                     _ => {}
                 }
+            }
+            // ---- completeness per lookup, where the wire tells which lookup a request belongs to:
+            // a FINDNODE to peer P asks first for log2(target xor P), so a request is attributed
+            // to a lookup when that value fits exactly one of the lookups running at that moment
+            {
+                let lookups: Vec<(Id, Duration, Duration, Vec<Id>)> = s.apis[first..].iter().filter_map(|a| match (&a.target, &a.done) {
+                    (Some(t), Some((done, ApiOut::Nodes(Ok(v))))) => Some((*t, a.started, *done, v.iter().map(|e| e.node_id().raw()).collect())),
+                    _ => None,
+                }).collect();
+                let pos0 = s.w.trace.iter().position(|(t, _)| *t >= t_start).unwrap_or(s.w.trace.len());
+                let mut owner: HashMap<(usize, Vec<u8>), Option<usize>> = HashMap::new();
+                let mut contacted: HashSet<Id> = HashSet::new();
+                let mut told: Vec<(usize, Duration, Id)> = Vec::new(); // (lookup, when, candidate)
+                let mut parts: HashMap<(usize, Vec<u8>), (u64, Vec<Vec<u8>>)> = HashMap::new();
+                let mut sent_by: Vec<(usize, Duration)> = Vec::new();
+                for (at, e) in &s.w.trace[pos0..] {
+                    match e {
+                        WEv::Sent { node: Some(i), kind, msg, .. } => {
+                            if *kind == "random" {
+                                contacted.insert(s.w.id(*i));
+                            }
+                            if let Some(RefMessage::FindNode { id, distances }) = msg {
+                                contacted.insert(s.w.id(*i));
+                                let pid = s.w.id(*i);
+                                let fits: Vec<usize> = lookups.iter().enumerate().filter(|(_, (t, a, d, _))| *at >= *a && *at <= *d && distances.first() == Some(&log2(t, &pid))).map(|(k, _)| k).collect();
+                                let o = *owner.entry((*i, id.clone())).or_insert(if fits.len() == 1 { Some(fits[0]) } else { None });
+                                if let Some(k) = o {
+                                    sent_by.push((k, *at));
+                                }
+                            }
+                        }
+                        WEv::Injected { node: Some(i), msg: Some(RefMessage::Nodes { id, records, total }), .. } => {
+                            // the records of an answer reach the lookup when its last packet is in
+                            if let Some(Some(k)) = owner.get(&(*i, id.clone())) {
+                                let entry = parts.entry((*i, id.clone())).or_insert((0u64, Vec::new()));
+                                entry.0 += 1;
+                                entry.1.extend(records.iter().cloned());
+                                if entry.0 == (*total).max(1) {
+                                    for r in &entry.1 {
+                                        if let Some(enr) = rlp_ref::decode_record(r) {
+                                            told.push((*k, *at, enr.node_id().raw()));
+                                        }
+                                    }
+                                }
+                            }
+                        }
+                        _ => {}
+                    }
+                }
+                // an answer counts as taken in when the node announced its records right then
+                let announced_at: Vec<(Duration, Id)> = s.w.events.iter().filter(|(t, _)| *t >= t_start).filter_map(|(t, e)| match e {
+                    EvSum::Discovered(id, _) => Some((*t, *id)),
+                    _ => None,
+                }).collect();
+                let told: Vec<(usize, Duration, Id)> = told.into_iter().filter(|(_, at, x)| announced_at.iter().any(|(t, id)| id == x && *t >= *at && *t <= *at + Duration::from_millis(3))).collect();
+                let announced: HashSet<Id> = announced_at.iter().map(|(_, id)| *id).collect();
+                for (k, (target, started, done, result)) in lookups.iter().enumerate() {
+                    if *done >= *started + query_timeout || result.is_empty() {
+                        continue;
+                    }
+                    let dist = |id: &Id| crate::props::kb::xor(id, target);
+                    let farthest = result.iter().map(|id| dist(id)).max().unwrap();
+                    let full = result.len() >= 16;
+                    // (the call's return is noticed at the next step, which may be much later on the
+                    // clock: that the lookup was still running after it had been told is taken from the
+                    // wire - it sent another request of its own afterwards)
+                    let skipped: Vec<String> = told.iter().filter(|(l, at, x)| *l == k && *at < *done && sent_by.iter().any(|(o, t)| *o == k && *t > *at + Duration::from_millis(1)) && announced.contains(x) && *x != vid && !contacted.contains(x) && s.w.node_by_id(x).is_some() && (!full || dist(x) < farthest)).map(|(_, _, x)| format!("{}=node{}", hx(&x[..4]), s.w.node_by_id(x).unwrap())).collect();
+                    rep.count("sys_overlapping_lookups_judged_for_completeness");
+                    if !skipped.is_empty() {
+                        s.flag(rep, Focus::C10, "C10:candidate-not-contacted", format!("a lookup running next to others returned {} nodes without being cut off, yet {} candidates named in answers to its own requests were never contacted by anybody ({:?})", result.len(), skipped.len(), &skipped[..skipped.len().min(4)]), json!({"overlapping": k + 1, "target": hx(target)}));
+                    }
+                }
+            }
+            for (i, d) in saved_delays.iter().enumerate() {
+                s.w.nodes[i].b.reply_delay = *d;
             }
             let pause = request_timeout * (retries as u32 + 4) + Duration::from_millis(500);
             s.advance(pause, rep).await;
@@ -1701,10 +1787,31 @@ pub fn lookup(seed: u64, focus: Focus, rep: &mut Report) {
             // no timer of its own); what wakes it at the latest is the end of the last outstanding
             // request, whose timer restarts with every partial NODES packet (15 at most).
             let bound = query_timeout + request_timeout * (retries as u32 + 1) * 16 + Duration::from_secs(3);
+            // (in some lookups the user also removes entries later on, at any moment: an entry
+            // the lookup was told about while it was a table entry stays a candidate too)
+            let late_removals = !predicate && rng.chance(1, 4);
             while s.apis[call].done.is_none() && s.w.now() < t_start + bound {
                 let n = s.tick(rep).await;
                 if n == 0 {
                     tokio::time::sleep((request_timeout / 8).max(Duration::from_millis(2))).await;
+                }
+                // ... preferably one that a NODES answer has just named
+                let just_named: Vec<Id> = match (late_removals, &s.w.last_injected) {
+                    (true, Some(inj)) => match &inj.tag.msg {
+                        Some(RefMessage::Nodes { records, .. }) => records.iter().filter_map(|r| rlp_ref::decode_record(r)).map(|e| e.node_id().raw()).collect(),
+                        _ => vec![],
+                    },
+                    _ => vec![],
+                };
+                if late_removals && (rng.chance(1, 10) || (!just_named.is_empty() && rng.bool())) {
+                    let entries = s.w.table();
+                    let named_entries: Vec<Id> = entries.iter().map(|e| e.0).filter(|id| just_named.contains(id)).collect();
+                    if !entries.is_empty() {
+                        let id = if named_entries.is_empty() { entries[rng.usize(entries.len())].0 } else { *rng.pick(&named_entries) };
+                        let removed = s.w.discv5.remove_node(&NodeId::new(&id));
+                        s.w.note(format!("user removes {} from the table: {removed}", hx(&id[..4])));
+                        rep.count("sys_lookup_entries_removed_later");
+                    }
                 }
             }
             rep.count("sys_lookups");
@@ -1872,6 +1979,30 @@ pub fn lookup(seed: u64, focus: Focus, rep: &mut Report) {
                 rep.count("sys_lookups_judged_for_completeness");
                 if !missing.is_empty() {
                     s.flag(rep, Focus::C10, "C10:candidate-not-contacted", format!("the lookup returned {} nodes without being cut off, yet it never contacted {} candidates it had learnt of ({:?})", result.len(), missing.len(), &missing[..missing.len().min(4)]), wit.clone());
+                }
+            }
+            if !predicate && !cut_off && !tight && focus != Focus::C11 && result.len() >= 16 {
+                // a full result: the lookup walks its candidates in order of distance and stops at
+                // the 16th that answered, so every candidate it had learnt of that is closer to
+                // the target than the farthest node of the result was contacted on the way
+                let farthest = result.iter().map(|e| dist(&e.node_id().raw())).max().unwrap();
+                let mut contacted: HashSet<Id> = first_tx.keys().map(|(i, _)| s.w.id(*i)).collect();
+                let pending_window = request_timeout * (retries as u32 + 1) + Duration::from_secs(1);
+                for (at, e) in &s.w.trace {
+                    if let WEv::Sent { node: Some(i), kind: "random", .. } = e {
+                        if *at + pending_window >= t_start && *at <= t_done {
+                            contacted.insert(s.w.id(*i));
+                        }
+                    }
+                }
+                let announced: HashSet<Id> = s.w.events.iter().filter(|(t, _)| *t >= t_start && *t <= t_done).filter_map(|(_, e)| match e {
+                    EvSum::Discovered(id, _) => Some(*id),
+                    _ => None,
+                }).collect();
+                let skipped: Vec<String> = learned.iter().filter(|id| announced.contains(*id) && **id != vid && !contacted.contains(*id) && s.w.node_by_id(id).is_some() && dist(id) < farthest).map(|id| format!("{}=node{}", hx(&id[..4]), s.w.node_by_id(id).unwrap())).collect();
+                rep.count("sys_full_results_judged_for_skipped_candidates");
+                if !skipped.is_empty() {
+                    s.flag(rep, Focus::C10, "C10:closer-candidate-not-contacted", format!("the lookup returned a full result, yet {} candidates it had learnt of that are closer to the target than the farthest returned node were never contacted ({:?})", skipped.len(), &skipped[..skipped.len().min(4)]), wit.clone());
                 }
             }
             rep.fingerprint(&("sys-lookup", focus, predicate, result.len().min(17), max_inflight.min(6), cut_off, big, parallelism));
